@@ -328,10 +328,13 @@ def run(ctx):
                 ctx.note(f"R3.10 write_cargo_toml left the interpretable fragment ({e_}); not decided")
                 break
             rows += 1
+            seen_insert_any = locals().get("seen_insert_any", False) or bool(inserted)
             req = set().union(*[need[k] for k in present if present[k]])
             if not req <= inserted:
                 bad.append(f"definition with {[k for k in present if present[k]]}: the emitted code names {sorted(req)}, the manifest declares {sorted(inserted)}")
-        if bad is not None:
+        if bad is not None and not locals().get("seen_insert_any", False):
+            ctx.note("R3.10 write_cargo_toml does not build its dependency table through map insertions (collected from an iterator?); the table is not decided by this rule")
+        elif bad is not None:
             ctx.check(not bad, "R3.10", wct[0].loc(), "write_cargo_toml|dependencies", "write_cargo_toml: " + "; ".join(bad[:3]) + " — the generated crate does not compile without the missing dependency",
                       instance=f"write_cargo_toml: {rows} rows (types x errors x services), dependencies cover the crates named by the templates {dict((k, sorted(v)) for k, v in need.items())}")
     # ---------------- R3.9 names taken from a definition are never *parsed* as Rust identifiers: syn's Ident parser refuses
